@@ -14,6 +14,8 @@ ug      = name~kind~m~matrix^…     kind ∈ oper fn0 fn1 fn2 other; `fn1` deno
 * `lists n=K targets=..`                         → `ok anc|tgt|idx|new`
 * `lookup ug=.. name=NAME cn=0|1`                → `ok library|userOper|userCall0|userCall1` | `err ..`
 * `ket N= ug= ops= state=<vector> trace=0|1`     → `ok vector(#vector…)`      state-vector mode, ket input
+* `histket N= ug= ops= state=<vector> script=e;t1:2;c0:2;t0:0;e` → `ok <answer>#<answer>…` one `ok vector` / `err ..` per `e`:
+                                                   the gate objects are re-targeted between the runs (tI:qubits, cI:qubits|N)
 * `oper N= ug= ops= state=<matrix> trace=0|1`    → `ok matrix(#…)`            state-vector mode, operator input
 * `dm N= ug= ops= state=<matrix> trace=0|1`      → `ok matrix(#…)`            density-matrix mode
 * `dmket N= ug= ops= state=<vector>`             → `ok matrix`                density-matrix mode, ket input (ket2dm)
@@ -132,6 +134,21 @@ def resolveAllD (ug : List UDef) (rs : List OpReq) : Except Err (List (Op S)) :=
   if rs.any (fun r => r.g.name = .GLOBALPHASE && !r.g.arg.isFixed) then .error .unknownGate
   else resolveAll libE (ug.map userGateOf) (rs.map reqOf)
 
+/-- `e` | `tI:a.b` | `cI:a.b` | `cI:N` (None) | `tI:-` (empty list) -/
+def histOp? (s : String) : Option HistOp :=
+  if s == "e" then some .eval else
+  match s.splitOn ":" with
+  | [hd, v] =>
+    let kind := hd.take 1
+    match (hd.drop 1).toNat? with
+    | none => none
+    | some i =>
+      let l : Option (List Nat) := if v == "-" then some [] else natsDot? v
+      if kind == "t" then l.map (HistOp.setTargets i)
+      else if kind == "c" then (if v == "N" then some (.setControls i none) else l.map fun x => .setControls i (some x))
+      else none
+  | _ => none
+
 def chunks (n : Nat) (l : List S) : List (List S) :=
   (List.range (l.length / n)).map fun i => (l.drop (i * n)).take n
 
@@ -191,6 +208,18 @@ def step (line : String) : String :=
         if trace then answer (traceKet O ops (ketTensor N amps)) fun l => "#".intercalate (l.map fun t => showVec t.data)
         else answer (runKet O ops (ketTensor N amps)) fun t => showVec t.data
       | none => "bad-op"
+  | some "histket" =>
+    -- a history on the live gate objects (Model/SimKet.lean (h)); every `e` is a state-vector run on `state`
+    match fNat? fs "N", (fStr? fs "ug").bind udefs?, (fStr? fs "ops").bind opReqs?, (fStr? fs "state").bind vec?,
+        (fStr? fs "script").bind (fun s => (splitNE s ";").mapM histOp?) with
+    | some N, some ug, some rs, some amps, some script =>
+      let ev := fun (gs : List (GateReq OpReq)) =>
+        if rs.any (fun r => r.g.name = .GLOBALPHASE && !r.g.arg.isFixed) then Except.error Err.unknownGate else
+        match resolveAll libE (ug.map userGateOf) gs with
+        | .ok ops => runKet O ops (ketTensor N amps)
+        | .error e => .error e
+      "ok " ++ "#".intercalate ((runHist ev (rs.map reqOf) script).map fun r => answer r fun t => showVec t.data)
+    | _, _, _, _, _ => "bad-op"
   | some "oper" =>
     withOps fs fun N ops =>
       match (fStr? fs "state").bind mat? with
